@@ -407,4 +407,66 @@ theorem C07_synthesize_single_domains (E : Env α) (cols : List (RawCol α)) (nr
             exact colFits_of_fitted E F' cols nrows j hj _ hfits
     · cases hF
 
+/-- the rows of a microtable, for any column combination of a forest: one cell per column of the combination, and the cell standing
+for column `comb[k]` fits that column's convertor -/
+theorem materializeTree_fits (E : Env α) (inp : ForestIn α) (F : Forest α) (hinit : Forest.init E inp = .ok F)
+    (hn : 0 < inp.raw.size) (hlt : 0 ≤ F.ctx.ap.supp.lt) (convs : List (Conv α)) (comb : List Nat) (hk : 1 ≤ comb.length)
+    (hstream : List Nat) (mstream : List (Draw α)) (rows : List (List (Cell α × α))) (drawn left : Nat)
+    (h : materializeTree E F convs comb hstream mstream = .ok (rows, drawn, left)) :
+    TableOK (fun j cell => CellFits ((analyzeConvertors E F convs).getD j .bool) cell.1) (rows, comb) := by
+  unfold materializeTree at h
+  split at h
+  · cases h
+  · rename_i t ht
+    split at h
+    · cases h
+    · rename_i bs drawn' hh
+      simp only at h
+      split at h
+      · cases h
+      · rename_i rows' rest hm
+        simp only [Except.ok.injEq, Prod.mk.injEq] at h
+        obtain ⟨rfl, _, _⟩ := h
+        intro row hrow
+        obtain ⟨b, hb, hfor⟩ := microdata_cells E _ _ bs mstream rest rows' hm row hrow
+        have hbl := (C01_bucket_ranges_in_forest E inp F hinit hn hlt 8 comb hk t ht hstream bs drawn' hh b hb).1
+        have hlenrow : row.length = comb.length := by
+          rw [← hfor.length_eq]
+          simp [hbl]
+        refine ⟨hlenrow, fun k hk' => ?_⟩
+        have hget := List.forall₂_iff_get.mp hfor
+        have hr : k < row.length := by rw [hlenrow]; exact hk'
+        have hjz : k < (List.zip b.ivs (List.zip (comb.map fun j => (analyzeConvertors E F convs).getD j Conv.bool)
+            (comb.map fun j => F.nullMaps.getD j (ofInt 0)))).length := by rw [hget.1]; exact hr
+        obtain ⟨s, s', hrun⟩ := hget.2 k hjz hr
+        simp only [List.get_eq_getElem, List.getElem_zip, List.getElem_map] at hrun
+        have hfits := C07_cell_fits E _ _ _ s s' row[k].1 row[k].2 hrun
+        have e : row.getD k default = row[k] := by simp [List.getD_eq_getElem?_getD, hr]
+        rw [e]
+        exact hfits
+
+/-- **C07, value domains through `build_table` (any cluster plan).**  Whatever plan `build_table` is given — initial cluster, stitched
+and patched derived clusters, both ownership modes — and whatever the RNG streams, every row of the assembled table has one cell
+per column of the table, and the cell standing for column `j` is a null or a value of the kind of column `j`'s convertor (for a string
+column: a string of its value map or a mask `prefix*index`): stitching and patching only move cells, each under its own column
+(`buildTable_ok`), and every microtable is well-typed (`materializeTree_fits`). Clusters are non-empty (`WellFormedPlan`). -/
+theorem C07_table_domains (E : Env α) (inp : ForestIn α) (F : Forest α) (hinit : Forest.init E inp = .ok F)
+    (hn : 0 < inp.raw.size) (hlt : 0 ≤ F.ctx.ap.supp.lt) (convs : List (Conv α))
+    (isIntegral : List Bool) (entropy : List α) (threshRel : α) (cl : Clusters)
+    (hini : 1 ≤ cl.initial.length) (hder : ∀ dc ∈ cl.derivedClusters, 1 ≤ dc.derived.length)
+    (streams : List (List Nat × List (Draw α))) (s s' : List (Draw α)) (res : MTable (Cell α) α)
+    (h : (buildTable E F convs isIntegral entropy threshRel cl streams).run s = .ok (res, s')) :
+    ∀ row ∈ res.1, row.length = res.2.length ∧
+      ∀ (k : Nat) (hk : k < res.2.length), CellFits ((analyzeConvertors E F convs).getD res.2[k] .bool) (row.getD k default).1 := by
+  -- `build_table` materialises the initial cluster and `stitch ++ derived` of every derived cluster: all non-empty
+  have hM : ∀ (cols : List Nat), 1 ≤ cols.length → ∀ (streams : List Nat × List (Draw α)) (s s' : List (Draw α)) (res : MTable (Cell α) α),
+      (materializeGM E F convs cols streams).run s = .ok (res, s') →
+      TableOK (fun j cell => CellFits ((analyzeConvertors E F convs).getD j .bool) cell.1) res := by
+    intro cols hc streams s s' res hm
+    obtain ⟨hcomb, drawn, left, hmt⟩ := materializeGM_tree E F convs cols streams s s' res hm
+    have := materializeTree_fits E inp F hinit hn hlt convs _ (by rw [sortAscStable_length]; exact hc) _ _ res.1 drawn left hmt
+    rw [← hcomb] at this
+    exact this
+  exact buildTable_cells E F convs isIntegral entropy threshRel cl streams s s' res _ hini hder hM h
+
 end
